@@ -970,3 +970,124 @@ func ruleDerivedInvalidation(c *Ctx) {
 	}
 	c.Floor("CandidateStateChanged emission sites", nev, 2)
 }
+
+// ---------------------------------------------------------------------------
+// cache-init: InitializeCache rebuilds every field of the native cache from storage
+
+// literalFields: fields set by keyed composite literals of type T in fd (a write of those fields).
+func literalFields(fd *FuncDecl, rel, typeName string) map[string]bool {
+	out := map[string]bool{}
+	ast.Inspect(fd.Decl.Body, func(n ast.Node) bool {
+		cl, ok := n.(*ast.CompositeLit)
+		if !ok || !namedTypeIs(fd.Pkg.TypesInfo.TypeOf(cl), rel, typeName) {
+			return true
+		}
+		for _, el := range cl.Elts {
+			if kv, ok := el.(*ast.KeyValueExpr); ok {
+				if id, ok := kv.Key.(*ast.Ident); ok {
+					out[id.Name] = true
+				}
+			}
+		}
+		return true
+	})
+	return out
+}
+
+// derivedFields: cache fields that are not read back from storage, one reason each.
+var derivedFields = map[string]string{
+	"NeoCache.votesChanged":              "dirty flag: starts set, so the first epoch boundary recomputes",
+	"PolicyCache.faunInitialized":        "set by fillCacheFromDAO from the hardfork state",
+	"PolicyCache.maxVerificationGas":     "constant default, not configurable through storage",
+	"DesignationCache.rolesChangedFlag":  "per-block notification flag, false at start",
+	"PolicyCache.msPerBlock":             "filled only when the Echidna storage record exists",
+	"PolicyCache.maxVUBIncrement":        "filled only when the Echidna storage record exists",
+	"PolicyCache.maxTraceableBlocks":     "filled only when the Echidna storage record exists",
+}
+
+func ruleCacheInit(c *Ctx) {
+	pk := c.P.Pkg(natPkg)
+	if pk == nil {
+		c.Lost("anchor", "package native not found")
+		return
+	}
+	cts := cacheTypes(c)
+	ws := c.P.PkgWriteSummary(natPkg)
+	// owner native of each cache type: the type whose InitializeCache calls SetCache with that cache type
+	nfields := 0
+	for _, name := range sortedKeys(cts) {
+		nt := cts[name]
+		st := nt.Underlying().(*types.Struct)
+		// find the InitializeCache that mentions this cache type
+		var init *FuncDecl
+		for _, fd := range c.P.AllFuncDecls() {
+			if fd.Pkg == pk && fd.Decl.Name.Name == "InitializeCache" && fd.Decl.Body != nil {
+				if c.P.NewFuncCFG(fd).Mentions(fd.Decl.Body, nil)["type:"+natPkg+"."+name] {
+					init = fd
+				}
+			}
+		}
+		if init == nil {
+			c.Lost(name+".InitializeCache", "no InitializeCache constructs a "+name)
+			continue
+		}
+		// transitive writes (field assignments + literals) inside package native
+		written := map[string]bool{}
+		seen := map[*types.Func]bool{}
+		var visit func(f *types.Func)
+		visit = func(f *types.Func) {
+			if seen[f] {
+				return
+			}
+			seen[f] = true
+			for k := range ws.Direct[f] {
+				written[k] = true
+			}
+			if d := c.P.DeclOf(f); d != nil && d.Decl.Body != nil {
+				for fl := range literalFields(d, natPkg, name) {
+					written[natPkg+"#"+fl] = true
+				}
+				// address of a field taken (v = &cache.oracles; v.nodes = ...): the field is filled through the pointer
+				ast.Inspect(d.Decl.Body, func(n ast.Node) bool {
+					if u, ok := n.(*ast.UnaryExpr); ok && u.Op == token.AND {
+						if se, ok := ast.Unparen(u.X).(*ast.SelectorExpr); ok {
+							if v, ok := pk.TypesInfo.ObjectOf(se.Sel).(*types.Var); ok && v.IsField() && namedTypeIs(pk.TypesInfo.TypeOf(se.X), natPkg, name) {
+								written[symOf(v)] = true
+							}
+						}
+					}
+					return true
+				})
+				// nested struct values (roleData)
+				for i := 0; i < st.NumFields(); i++ {
+					if s2, ok := st.Field(i).Type().Underlying().(*types.Struct); ok {
+						if nt2, ok := st.Field(i).Type().(*types.Named); ok && nt2.Obj().Pkg() == pk.Types {
+							_ = s2
+							for fl := range literalFields(d, natPkg, nt2.Obj().Name()) {
+								written[natPkg+"#"+fl] = true
+							}
+						}
+					}
+				}
+			}
+			for _, callee := range ws.Calls[f] {
+				visit(callee)
+			}
+		}
+		visit(init.Obj)
+		for i := 0; i < st.NumFields(); i++ {
+			fld := st.Field(i)
+			nfields++
+			key := name + "." + fld.Name()
+			switch {
+			case written[symOf(fld)]:
+				c.OK("init."+key, c.P.Pos(init.Decl.Pos()), "InitializeCache (transitively) fills "+key)
+			case derivedFields[key] != "":
+				c.OK("init."+key, c.P.Pos(init.Decl.Pos()), "derived/constant: "+derivedFields[key])
+			default:
+				c.Fail("init."+key, c.P.Pos(init.Decl.Pos()), fmt.Sprintf("%s.InitializeCache never fills %s: after a restart the cache starts with the zero value while a running node has the value its setters stored — answers and state roots diverge", FuncKey(init.Obj), key))
+			}
+		}
+	}
+	c.Floor("native cache fields", nfields, 24)
+}
